@@ -28,9 +28,17 @@ fn stream_of(lines: &[(Vec<weechess_core::Move>, weechess_engine::eval::Evaluati
 }
 
 fn hook_stream(fen: &str, depth: usize, seed: u64, hseed: u64, ev: &Evaluator) -> Option<String> {
+    hook_stream_with(fen, depth, seed, hseed, ev, Some(1))
+}
+
+/// `workers = None` leaves the worker count to the engine's own policy (one worker for the iterations a depth
+/// limit <= 3 allows), as the public entry point and the CLI do, without their 1 GiB memory
+fn hook_stream_with(fen: &str, depth: usize, seed: u64, hseed: u64, ev: &Evaluator, workers: Option<usize>) -> Option<String> {
     // the memory geometry is derived from the hasher seed: roomy, or small enough for buckets to overflow
     let (tables, buckets) = [(8usize, 1024usize), (8, 1024), (1, 1), (2, 5), (4, 16), (3, 7)][(hseed % 6) as usize];
-    let sc = Scenario { tables, buckets, hasher_seed: hseed, steps: vec![Step::new(fen, depth, 1, seed)] };
+    let mut step = Step::new(fen, depth, 1, seed);
+    step.workers = workers;
+    let sc = Scenario { tables, buckets, hasher_seed: hseed, steps: vec![step] };
     let mut out = None;
     sc.run(ev, |_, _, res| {
         if res.out.panic.is_none() {
@@ -121,6 +129,7 @@ pub fn run(ctx: &Ctx, rep: &mut Report) {
                     (public_stream(&p, depth, seed), public_stream(&p, depth, seed))
                 }
                 "cli" => (cli_stream(ctx.bin.as_ref().unwrap(), fen, depth, seed), cli_stream(ctx.bin.as_ref().unwrap(), fen, depth, seed)),
+                "hook-default-workers" => (hook_stream_with(fen, depth, seed, hseed, &ev, None), hook_stream_with(fen, depth, seed, hseed, &ev, None)),
                 _ => (hook_stream(fen, depth, seed, hseed, &ev), hook_stream(fen, depth, seed, hseed, &ev)),
             };
             rep.eval(1);
@@ -172,6 +181,38 @@ pub fn run(ctx: &Ctx, rep: &mut Report) {
         if rep.samples.len() < 2 {
             rep.sample(json!({"fen": fen, "depth": depth, "seed": seed, "stream": a.chars().take(300).collect::<String>()}));
         }
+    }
+    // (1b) hook path with the engine's own worker policy, depth limit <= 3 (the configuration of the public entry
+    // point and of `weechess evaluate --max-depth <= 3`), mostly on wide positions
+    let mut n = ctx.n(1_200, 60_000);
+    while n > 0 && ctx.time_left() {
+        let p = if rng.gen_bool(0.5) {
+            let q = gen::sample(&mut rng);
+            if q.legal_moves().len() < 30 || gen::q_cost(&q, 300_000) >= 300_000 {
+                continue;
+            }
+            q
+        } else {
+            c03::random_root(&mut rng, &corpus)
+        };
+        let depth = [1usize, 2, 3, 3, 3][rng.gen_range(0..5)];
+        let (seed, hseed): (u64, u64) = (rng.gen(), rng.gen::<u64>() / 6 * 6 + rng.gen_range(0..2));
+        let fen = p.fen();
+        let a = hook_stream_with(&fen, depth, seed, hseed, &ev, None);
+        let b = hook_stream_with(&fen, depth, seed, hseed, &ev, None);
+        rep.eval(1);
+        rep.count("hook_pairs_with_default_worker_policy", 1);
+        n -= 1;
+        let (Some(a), Some(b)) = (a, b) else {
+            rep.count("panic_left_to_C04", 1);
+            continue;
+        };
+        if a != b {
+            rep.violation("not-reproducible", &format!("not-reproducible|hook-default-workers|{}|d{}", fen, depth), &format!("two runs with seed {} and the default worker policy differ:\n{}\n{}", seed, a, b), json!({"fen": fen, "depth": depth, "seed": seed, "hseed": hseed, "path": "hook-default-workers"}));
+            continue;
+        }
+        rep.max("most_legal_moves_at_a_default_policy_root", p.legal_moves().len() as u64);
+        rep.distinct(mix(p.key_hash(), 7_000_000 + depth as u64));
     }
     // (2) the same cases in two fresh processes of this harness
     if !xproc.is_empty() {
